@@ -34,17 +34,6 @@ def run(ctx, report: Report) -> None:
     # ---- R1 ----------------------------------------------------------------------------------------------
     r1 = report.rule('C19-R1', 'node-kind classification is exhaustive', floor=7)
     _, iss = src.func('css_match._DocumentNav.is_special_string')
-    tup = None
-    for c in ast.walk(iss):
-        if isinstance(c, ast.Call) and call_name(c) == 'isinstance' and len(c.args) == 2:
-            tup = c.args[1]
-            if isinstance(tup, ast.Name):
-                # hoisted into a module-level constant
-                node = inv.folder.env_nodes['css_match'].get(tup.id)
-                tup = node if node is not None else tup
-    if tup is None or not isinstance(tup, (ast.Tuple, ast.Attribute)):
-        raise AnalysisError('is_special_string: isinstance(obj, (...)) not found')
-    listed = {unparse(e).split('.')[-1] for e in (tup.elts if isinstance(tup, ast.Tuple) else [tup])}
     classes = facts.element_classes()
     pre = facts.subclasses_of('PreformattedString')
     nav = facts.subclasses_of('NavigableString')
@@ -55,72 +44,59 @@ def run(ctx, report: Report) -> None:
         out, todo = set(), [c]
         while todo:
             x = todo.pop()
-            for b in classes.get(x, []):
-                if b not in out:
-                    out.add(b)
-                    todo.append(b)
+            for b_ in classes.get(x, []):
+                if b_ not in out:
+                    out.add(b_)
+                    todo.append(b_)
         return out
-    for c in sorted(pre):
-        ok = c in listed or bool(ancestors(c) & listed)
-        r1.instance({'bs4_class': c, 'kind': 'markup construct (PreformattedString)', 'classified_special': ok}, key=c)
+    # the three predicates, interpreted on one abstract node per string class of the installed bs4 (the node carries the class
+    # and all its ancestors, under both spellings bs4.X and bs4.element.X) plus a tag
+    from ..interp import Obj, Raised, call_function
+    from ..miniev import Unsupported
+
+    def node_of(cls_name):
+        chain = {cls_name} | ancestors(cls_name)
+        return Obj(_name=f'<{cls_name}>', __isa__=tuple(f'bs4.{c}' for c in chain) + tuple(f'bs4.element.{c}' for c in chain))
+
+    def pred(name, node):
+        try:
+            return bool(call_function(ctx, f'css_match._DocumentNav.{name}', [node], {}, {}, None))
+        except Raised as e:
+            return f'raises {e.exc_name}'
+        except Unsupported as e:
+            raise AnalysisError(f'{name}: outside the evaluable fragment: {e}')
+    for c in sorted(nav | {'NavigableString'}):
+        if c == 'PreformattedString':
+            continue        # the abstract base of the markup constructs: bs4 never instantiates it
+        n_ = node_of(c)
+        special, content, navig = pred('is_special_string', n_), pred('is_content_string', n_), pred('is_navigable_string', n_)
+        is_markup = c in pre
+        ok = special is is_markup and content is (not is_markup) and navig is True
+        r1.instance({'bs4_class': c, 'markup_construct': is_markup, 'is_special_string': special, 'is_content_string': content,
+                     'is_navigable_string': navig}, key=c)
         r1.obligation(ok)
         if not ok:
-            r1.violation(f'is_special_string misses {c}', mmod.where(iss),
-                         f'bs4.element.{c} derives from PreformattedString (comment/CDATA/PI/declaration/doctype family) but '
-                         f'is_special_string does not cover it: its text is counted as element content by :-soup-contains, :empty, '
-                         f':dir and :root')
-    for c in sorted(listed):
-        plain = c in nav and c not in pre and c != 'PreformattedString'
-        r1.instance({'listed_class': c, 'is_plain_text_kind': plain}, key='listed-' + c)
-        r1.obligation(not plain)
-        if plain:
-            r1.violation(f'is_special_string lists text class {c}', mmod.where(iss),
-                         f'is_special_string treats bs4.element.{c} as special although it is ordinary text content')
-        if c not in classes:
-            r1.violation(f'is_special_string lists unknown {c}', mmod.where(iss), f'bs4 has no class {c}')
-    _, ics = src.func('css_match._DocumentNav.is_content_string')
-    p = ics.args.args[1].arg
-    for atom, val, what in ((f'cls.is_navigable_string({p})', False, 'a node that is not a string'),
-                            (f'cls.is_special_string({p})', True, 'a comment/CDATA/PI/declaration/doctype')):
-        bad = [n for v, n, _ in boolpaths.return_values(ics, {atom: val}) if v is not False]
-        r1.instance({'is_content_string': f'false when {atom} is {val}', 'holds': not bad}, key=atom)
-        r1.obligation(not bad)
-        if bad:
-            r1.violation(f'is_content_string admits {what}', mmod.where(ics), f'is_content_string can be true for {what}')
-    _, ins = src.func('css_match._DocumentNav.is_navigable_string')
-    ok = 'NavigableString' in unparse(ins)
-    r1.instance({'is_navigable_string': 'isinstance NavigableString', 'ok': ok}, key='nav')
-    if not ok:
-        r1.violation('is_navigable_string', mmod.where(ins), 'is_navigable_string no longer tests for NavigableString')
+            r1.violation(f'is_special_string misses {c}' if is_markup else f'is_special_string lists text class {c}', mmod.where(iss),
+                         f'bs4.element.{c} is {"a markup construct (derives from PreformattedString: comment/CDATA/PI/declaration/doctype family)" if is_markup else "ordinary text content"}; '
+                         f'the predicates answer special={special}, content={content}, navigable={navig}; expected special={is_markup}, '
+                         f'content={not is_markup}, navigable=True: otherwise its text is {"counted as" if is_markup else "dropped from"} element '
+                         f'content by :-soup-contains, :empty, :dir and :root')
+    tag_node = Obj(_name='<Tag>', __isa__=('bs4.Tag', 'bs4.element.Tag', 'bs4.PageElement', 'bs4.element.PageElement'))
+    tg = (pred('is_special_string', tag_node), pred('is_content_string', tag_node), pred('is_navigable_string', tag_node))
+    r1.instance({'bs4_class': 'Tag', 'special/content/navigable': tg}, key='Tag')
+    r1.obligation(tg == (False, False, False))
+    if tg != (False, False, False):
+        r1.violation('is_content_string admits a node that is not a string', mmod.where(iss),
+                     f'for a Tag the predicates answer (special, content, navigable) = {tg}; all three must be False')
 
     # ---- R2 ----------------------------------------------------------------------------------------------
     r2 = report.rule('C19-R2', 'every text reader is guarded by the classification', floor=117)
-    readers = {'_DocumentNav.get_text': 'is_content_string', '_DocumentNav.get_own_text': 'is_content_string',
-               'CSSMatch.match_empty': 'is_content_string', 'CSSMatch.match_root': 'is_content_string',
-               'CSSMatch.find_bidi': 'is_special_string', 'CSSMatch.match_dir': 'is_content_string'}
-    for q, guard in readers.items():
-        fn = mmod.functions.get(q)
-        if fn is None:
-            raise AnalysisError(f'css_match.{q} not found')
-        uses = [c for c in walk_no_nested(fn) if isinstance(c, ast.Call) and call_name(c).endswith(guard)]
-        via = None
-        if not uses:
-            # the test may live in a helper the reader calls directly (one level, same class hierarchy)
-            for c in walk_no_nested(fn):
-                if isinstance(c, ast.Call) and call_name(c).startswith(('self.', 'cls.')) and call_name(c).count('.') == 1:
-                    hq = src.find_method('css_match.CSSMatch', call_name(c).split('.')[1])
-                    if hq is None or hq.endswith(('.match_selectors', '.' + fn.name)):
-                        continue
-                    _, hf = src.func(hq)
-                    if any(isinstance(x, ast.Call) and call_name(x).endswith('is_content_string') for x in walk_no_nested(hf)):
-                        uses, via = [c], hq
-                        break
-        r2.instance({'reader': q, 'guard': guard, 'uses': len(uses), 'via_helper': via}, key=q)
-        r2.obligation(bool(uses))
-        if not uses:
-            r2.violation(f'css_match.{q} unguarded text', mmod.where(fn),
-                         f'{q} reads node text without consulting {guard}: comments, CDATA, processing instructions, '
-                         f'declarations or doctypes are counted as text')
+    # what each text reader does with nodes that are not content (comment, CDATA, PI, declaration, doctype), as tables on
+    # abstract trees: :empty, :root and :dir() here; the two collectors and :-soup-contains below
+    from .sem import dir_table, empty_table, root_table
+    empty_table(ctx, r2)
+    root_table(ctx, r2)
+    dir_table(ctx, r2)
     # the two collectors, interpreted on an abstract node sequence: text, special strings ('!...') and a tag
     from ..interp import Obj, Raised, call_function
     from ..miniev import Unsupported
